@@ -6,6 +6,10 @@ toolchain go1.25.11
 
 require go.etcd.io/bbolt v0.0.0
 
-require golang.org/x/sys v0.46.0 // indirect
+require (
+	github.com/spf13/cobra v1.10.2 // indirect
+	github.com/spf13/pflag v1.0.10 // indirect
+	golang.org/x/sys v0.46.0 // indirect
+)
 
 replace go.etcd.io/bbolt => /repo
